@@ -106,6 +106,10 @@ def check(case):
             out.cls('grids:same-ends-other-spacing')
         Wk = cut(out, 'build-world@k', build_k, w, wts, fac, grids)
         mk, rk = run(out, Wk, family, case, 'k')
+        from vlib.props.c01 import zero_corner_ambiguous
+        if zero_corner_ambiguous(Wk, mk):
+            out.cls('ambiguous-zero-corner')
+            return out
         spec_k = np.array(rk[1], dtype=float, copy=True)
         tau_k = np.array(rk[2], dtype=float, copy=True)
         # the same model object evaluated again (as a sampler does) gives the same spectrum
